@@ -792,7 +792,7 @@ theorem image_round_trip (L : Limits c o fl fuel) (hroot : (fl.getD 0 FEnt.nil).
           exact this)
   -- id table
   have hid : readIdTable c img (bSB c o fl fuel).idStart (bSB c o fl fuel).idCount = idTable fl :=
-    readIdTable_written c o.noCompData img (bIdLoc c o fl fuel) (bIdStart c o fl fuel) (idTable fl) L.idsWF.1 L.idsWF.2 D.idtab D.ididx
+    readIdTable_written c o.noCompData img (bIdLoc c o fl fuel) (bIdStart c o fl fuel) (idTable fl) L.idsWF.1 D.idtab D.ididx
       (by have : (bSB c o fl fuel).idStart < 2 ^ 64 := hsbw.2.2.2.2.2.2.2.2.2.1
           exact this)
   -- root inode
